@@ -36,6 +36,11 @@ M = [
  ('integral-control-weights', 'sampling_method.py', "return ca.sum2(ca.diff(ts).T*exprs[:,:-1])", "return ca.sum2(ca.diff(ts).T*exprs[:,1:])", ['C05']),
  ('at-t0-node', 'sampling_method.py', "        return self.eval_at_control(stage, expr, 0)\n\n    def fill_placeholders_at_tf", "        return self.eval_at_control(stage, expr, 1)\n\n    def fill_placeholders_at_tf", ['C05', 'C04']),
  ('ms-quad-accumulate', 'multiple_shooting.py', '            xqk_temp = self.q+FF["Qi"]', '            xqk_temp = FF["Qi"]', ['C07']),
+ # --- C14
+ ('scale-bounds-not-scaled', 'direct_method.py', "                        lb = mc.lb/scale\n                        canon = mc.canon/scale\n                        ub = mc.ub/scale", "                        lb = mc.lb\n                        canon = mc.canon/scale\n                        ub = mc.ub/scale", ['C14']),
+ ('scale-eq-lb', 'direct_method.py', "                        lb = mc.lb/scale\n                        canon = mc.canon/scale\n                        c = lb==canon", "                        lb = mc.lb\n                        canon = mc.canon/scale\n                        c = lb==canon", ['C14']),
+ ('scale-vcontrol-missing', 'sampling_method.py', "            self.V_control[i].append(opti.variable(v.shape[0], v.shape[1], scale=stage._scale[v], domain=stage._catalog[v]['domain']))", "            self.V_control[i].append(opti.variable(v.shape[0], v.shape[1], scale=stage._scale[v]*0+1, domain=stage._catalog[v]['domain']))", ['C14']),
+ ('dc-helper-scale', 'direct_collocation.py', "xc = opti.variable(stage.nx, self.degree, scale=repmat(scale_x, 1, self.degree))", "xc = opti.variable(stage.nx, self.degree, scale=repmat(scale_x, 1, self.degree)**2)", ['C14']),
 ]
 
 def main():
